@@ -70,6 +70,7 @@ def check_codes(ctx):
             caught = 'escaped: ' + type(err).__name__
         fact(ctx, subject, 'raise/catch through the common base', True,
              caught is cls)
+    check_instances(ctx)
     # an application may derive its own exceptions from the library's: the
     # mapping must keep naming the library's classes
     before = dict(mapping)
@@ -105,6 +106,62 @@ def check_codes(ctx):
          True, issubclass(ex.UnmarshalingException, ex.PAMQPException))
     fact(ctx, 'exceptions', 'base derives from Exception', True,
          issubclass(ex.PAMQPException, Exception))
+
+
+def constructor_arguments():
+    """What a client passes when it raises the class for a Close frame it
+    received: nothing, the reply text, the frame's fields. The reply text is
+    the peer's: every specification name in both spellings as a leading
+    token (a broker prefixes one, and it need not be this code's), the hostile
+    texts used elsewhere, other types."""
+    from mc import faults
+    out = [(), ('x',), ('',), (None,), (0,), (b'bytes',), ('a', 'b'),
+           (404, 'NOT_FOUND - x'), ('x', 60, 40)]
+    tokens = []
+    for _code, name, _kind in spec_table.REPLY_CODES:
+        tokens += [name, name.replace('-', '_'), name.lower()]
+    tokens += ['QUEUE_DELETED', 'TIMEOUT', 'SHUTDOWN', 'OK', 'name', 'value',
+               '200', '404', 'A', 'A1', '_', '-']
+    for tok in tokens:
+        for sep in (' - ', ': ', ' '):
+            out.append((tok + sep + "no queue 'q' in vhost '/'",))
+        out.append((tok,))
+    for text in faults.HOSTILE_TEXT:
+        out.append((text,))
+        out.append((text + ' - ' + text,))
+    return out
+
+
+def check_instances(ctx):
+    """The facts a handler reads are read from the caught *instance*: they
+    must be the specification's whatever the instance was constructed with."""
+    p = lib.pamqp()
+    ex = p.exceptions
+    argsets = constructor_arguments()
+    for code, name, kind in spec_table.REPLY_CODES:
+        cls = ex.CLASS_MAPPING.get(code)
+        if cls is None:
+            continue
+        base = ex.AMQPSoftError if kind == 'soft' else ex.AMQPHardError
+        for no, args in enumerate(argsets):
+            subject = 'reply code %d raised with arguments #%d %s' % (
+                code, no, short(args, 60))
+            try:
+                try:
+                    raise cls(*args)
+                except ex.PAMQPException as err:
+                    got = (type(err) is cls, isinstance(err, base),
+                           getattr(err, 'value', None),
+                           getattr(err, 'name', None), err.args == args)
+            except Exception as err:  # noqa - constructor refused or escaped
+                got = 'escaped: ' + type(err).__name__
+            fact(ctx, subject, 'caught instance (class, base, value, name, '
+                 'args kept)', (True, True, code, name, True), got)
+        # the class attributes are what they were after all that
+        fact(ctx, 'reply code %d' % code, 'name after instances were built',
+             name, getattr(cls, 'name', None))
+        fact(ctx, 'reply code %d' % code, 'value after instances were built',
+             code, getattr(cls, 'value', None))
 
 
 def check_constants(ctx):
